@@ -15,6 +15,11 @@ CLAIMED = {
    note="Trusted: reference Demon encoder, the effect recorder's projection (world/snapshot.go). Which callbacks are final is protocol knowledge from the Demon sources. Callback classes covered are the ones concretised in drive/gate.go; outbound dials are covered by C15's socket checks, not here.",
    technique="TLA+ spec + exhaustive TLC; generated behaviours replayed into the real code; TLC trace validation (strict + monitor)",
    design="DESIGN.md §5 C05"),
+ "C09": dict(
+   text="Pivot.tla models the pivot forest as two separately projected relations (children's parent pointers and parents' link lists) plus TS_Links and the activity flags, with register, SMB connect/reconnect (naming new agents, existing agents, the sender itself, ancestors), disconnect and death by exit, kill date and operator mark. TLC explores the complete state space for 4 agents. Every action sequence to depth 4 (quick) / 5 (thorough) and seeded random walks of depth 14 are replayed with real Demon packets and operator events on a fresh teamserver; after every step the forest is projected from the real pointers and from an independent SQL read of TS_Links, and TLC validates the recorded executions strictly and against the property monitor. Panics and non-returning calls are observed directly.",
+   note="Trusted: reference Demon encoder, the projection in drive/pivot.go, SQLite. Agent ids are below 2^31 here (top-bit ids are C08/C10 material). Universe of 4 agents.",
+   technique="TLA+ spec + exhaustive TLC; bounded-exhaustive and random behaviours replayed into the real code; TLC trace validation (strict + monitor)",
+   design="DESIGN.md §5 C09"),
 }
 NOT_BUILT = "machinery not built yet (construction order in DESIGN.md §8); not claimed until its check runs clean on the unchanged tree"
 
